@@ -172,6 +172,23 @@ def iterateRows (p : Path V K) (h : K) : Nat → List V → List V
   | 0, c => c
   | n + 1, c => iterateRows p h n (c.map (p.stepRow h))
 
+/-- `np.linalg.norm(new - old, axis=-1).max() / timestep`: the convergence measure of `relax`. -/
+def displacement [LT K] [DecidableLT K] (dot : V → V → K) (sqrt : K → K) (h : K) (old new : List V) : K :=
+  let ns := List.zipWith (fun a b => sqrt (dot (b - a) (b - a))) old new
+  (ns.foldl (fun m x => if m < x then x else m) (((0 : Nat) : K))) / h
+
+/-- one phase (relaxation, or climbing without climbing images) of `relax` on a path all of whose images are
+    kept by the re-spacing (two images): the final rows and the displacement measures of the steps performed. -/
+def relaxPhase [LT K] [DecidableLT K] (p : Path V K) (dot : V → V → K) (sqrt : K → K) (h tol : K) :
+    Nat → List V → List V × List K
+  | 0, c => (c, [])
+  | n + 1, c =>
+    let c' := c.map (p.stepRow h)
+    let d := displacement dot sqrt h c c'
+    if d < tol then (c', [d]) else
+      let r := relaxPhase p dot sqrt h tol n c'
+      (r.1, d :: r.2)
+
 end stepping
 
 /-- `default_timestep = 0.05 * min(0.2, 1/N)`, `default_tolerance = max(N^-4, 1e-10)`. -/
